@@ -122,7 +122,7 @@ let run () =
     | "O" :: fl :: thex :: rest ->
       incr checks; flags := fl; texthex := thex;
       let has c = String.contains fl c in
-      let icase = has 'i' and unicode = has 'u' in
+      let icase = has 'i' and unicode = has 'u' || has 'v' in
       let impl = (match rest with
         | ["PANIC"] -> None
         | cnt :: r -> let rec go k l = if k = 0 then [] else (match l with a :: b :: t -> (ios a, ios b) :: go (k - 1) t | _ -> failwith "O") in Some (go (ios cnt) r)
